@@ -67,6 +67,16 @@ func AcceptOrdinalSaleListing2Dummies(ctx context.Context, vla *ValidateListingA
 		return nil, err
 	}
 
+	// Change adds nothing when the funds do not even cover the fee: the buyer's UTXOs must
+	// pay for the purchase and its fee, an under-paying transaction is not handed back.
+	enough, err := tx.EstimateIsFeePaidEnough(asoa.FQ)
+	if err != nil {
+		return nil, err
+	}
+	if !enough {
+		return nil, bt.ErrInsufficientFees
+	}
+
 	//nolint:dupl // TODO: are 2 dummies useful or to be removed?
 	for i, u := range asoa.UTXOs {
 		// skip 3rd input (ordinals input)
